@@ -326,7 +326,7 @@ func (r *floatIncAggReducer) Aggregate(p *ReducerEndpoint, param *ReducerParams)
 	r.prevStep = rangeEnd
 	if param.lastRec {
 		defer r.reset()
-		if param.step == 0 {
+		if param.step == 0 || len(param.intervalIndex) == 0 {
 			return
 		}
 		nextStep := rangeEnd + param.step
